@@ -150,11 +150,23 @@ func keyMutations(r *fw.Rand) []mut {
 			m["publicKeyBase58"] = ""
 		}},
 		// (on an EC JWK: the base key may be an RSA one, which has neither crv nor x)
-		mut{"key-jwk-without-kty", false, func(m map[string]interface{}) { m["publicKeyJwk"] = gen.NewKey(r, gen.P256).JWK(); delete(m["publicKeyJwk"].(map[string]interface{}), "kty") }},
-		mut{"key-jwk-without-crv", false, func(m map[string]interface{}) { m["publicKeyJwk"] = gen.NewKey(r, gen.P256).JWK(); delete(m["publicKeyJwk"].(map[string]interface{}), "crv") }},
-		mut{"key-jwk-without-x", false, func(m map[string]interface{}) { m["publicKeyJwk"] = gen.NewKey(r, gen.P256).JWK(); delete(m["publicKeyJwk"].(map[string]interface{}), "x") }},
+		mut{"key-jwk-without-kty", false, func(m map[string]interface{}) {
+			m["publicKeyJwk"] = gen.NewKey(r, gen.P256).JWK()
+			delete(m["publicKeyJwk"].(map[string]interface{}), "kty")
+		}},
+		mut{"key-jwk-without-crv", false, func(m map[string]interface{}) {
+			m["publicKeyJwk"] = gen.NewKey(r, gen.P256).JWK()
+			delete(m["publicKeyJwk"].(map[string]interface{}), "crv")
+		}},
+		mut{"key-jwk-without-x", false, func(m map[string]interface{}) {
+			m["publicKeyJwk"] = gen.NewKey(r, gen.P256).JWK()
+			delete(m["publicKeyJwk"].(map[string]interface{}), "x")
+		}},
 		mut{"key-jwk-empty-object", false, func(m map[string]interface{}) { m["publicKeyJwk"] = map[string]interface{}{} }},
-		mut{"key-jwk-kty-null", false, func(m map[string]interface{}) { m["publicKeyJwk"] = gen.NewKey(r, gen.P256).JWK(); m["publicKeyJwk"].(map[string]interface{})["kty"] = nil }},
+		mut{"key-jwk-kty-null", false, func(m map[string]interface{}) {
+			m["publicKeyJwk"] = gen.NewKey(r, gen.P256).JWK()
+			m["publicKeyJwk"].(map[string]interface{})["kty"] = nil
+		}},
 		mut{"key-jwk-kty-not-a-string", false, func(m map[string]interface{}) {
 			m["publicKeyJwk"] = gen.NewKey(r, gen.P256).JWK()
 			m["publicKeyJwk"].(map[string]interface{})["kty"] = fw.Pick(r, []interface{}{1, true, []interface{}{"EC"}, map[string]interface{}{"kty": "EC"}})
